@@ -245,4 +245,8 @@ def targetReset (o : PlaceOpts) (w : World) (t : Tape) : Except GErr (World × T
 def mazeReset (o : PlaceOpts) (w : World) (t : Tape) : Except GErr (World × Tape) :=
   PlaceOut.toExcept (tbResetX .maze o w t)
 
+/-- the three resets, `Except`-typed, by kind -/
+def placementReset (kind : PKind) (o : PlaceOpts) (w : World) (t : Tape) : Except GErr (World × Tape) :=
+  PlaceOut.toExcept (resetX kind o w t)
+
 end Abmarl
